@@ -3,6 +3,7 @@ package main
 
 import (
 	"fmt"
+	"os"
 	"reflect"
 	"time"
 	"unsafe"
@@ -542,6 +543,79 @@ func check(run *enga.Run) *sim.Violation {
 	return nil
 }
 
+// wrapCheck (thorough tier, non-race build, VERIF_C01_WRAP=<result file>): performs 2^32-8
+// REAL push/pop pairs so that the 32-bit position counters are about to wrap, compares the
+// ring with the fast-forwarded one the simulated configurations use, then drives the real
+// ring across the wrap single-threaded against a FIFO model.
+func wrapCheck(path string) {
+	type result struct {
+		Pairs       uint64  `json:"pairs"`
+		FFEqual     bool    `json:"fast_forward_equal"`
+		AcrossWrap  int     `json:"ops_across_wrap"`
+		Failure     string  `json:"failure,omitempty"`
+		WallSeconds float64 `json:"wall_s"`
+	}
+	start := time.Now()
+	res := result{}
+	const req = 3 // Cap() == 4
+	a := ringz.NewSync[int](req)
+	n := uint64(1)<<32 - 8
+	for i := uint64(0); i < n; i++ {
+		if !a.Push(int(i)) {
+			res.Failure = fmt.Sprintf("Push failed at pair %d on an empty ring", i)
+			break
+		}
+		v, ok := a.Pop()
+		if !ok || v != int(i) {
+			res.Failure = fmt.Sprintf("Pop at pair %d returned (%d,%v)", i, v, ok)
+			break
+		}
+	}
+	res.Pairs = n
+	if res.Failure == "" {
+		b := ringz.NewSync[int](req)
+		res.FFEqual = fastForward(&b, uint32(n)) && reflect.DeepEqual(a, b)
+		// across the wrap: fill, drain, partial fills, against a slice model
+		var model []int
+		next := 1
+		for step := 0; step < 64 && res.Failure == ""; step++ {
+			k := step%(a.Cap()+1) + 1
+			for j := 0; j < k; j++ {
+				ok := a.Push(next)
+				if ok != (len(model) < a.Cap()) {
+					res.Failure = fmt.Sprintf("step %d: Push=%v with %d of %d stored", step, ok, len(model), a.Cap())
+					break
+				}
+				if ok {
+					model = append(model, next)
+				}
+				next++
+				res.AcrossWrap++
+			}
+			if a.Len() != len(model) || a.IsEmpty() != (len(model) == 0) || a.IsFull() != (len(model) == a.Cap()) {
+				res.Failure = fmt.Sprintf("step %d: Len=%d IsEmpty=%v IsFull=%v, model holds %d", step, a.Len(), a.IsEmpty(), a.IsFull(), len(model))
+			}
+			for j := 0; j < (step%3)+1 && res.Failure == ""; j++ {
+				v, ok := a.Pop()
+				if ok != (len(model) > 0) || (ok && v != model[0]) {
+					res.Failure = fmt.Sprintf("step %d: Pop=(%d,%v), model %v", step, v, ok, model)
+					break
+				}
+				if ok {
+					model = model[1:]
+				}
+				res.AcrossWrap++
+			}
+		}
+	}
+	res.WallSeconds = time.Since(start).Seconds()
+	sim.WriteJSON(path, res)
+}
+
 func main() {
+	if p := os.Getenv("VERIF_C01_WRAP"); p != "" {
+		wrapCheck(p)
+		return
+	}
 	enga.Main(&enga.Spec{ID: "C01", Gen: gen, New: build, Check: check})
 }
